@@ -2,7 +2,7 @@
 # usage: tools/run_equiv.sh <dir with patch.diff> [checks...]  - applies a behaviour-preserving change to a scratch copy of
 # /repo HEAD, runs the 149 tests and the quick tier of the given checks (default: all 18); every check must stay silent.
 set -u
-src=$1; shift
+src=$(cd "$1" && pwd); shift
 checks=${*:-C01 C02 C03 C04 C05 C06 C07 C08 C09 C10 C11 C12 C13 C14 C15 C16 C17 C18}
 d=/dev/shm/equiv-$$; rm -rf $d; mkdir -p $d
 git -C /repo archive HEAD | tar -x -C $d
